@@ -14,7 +14,7 @@ use std::sync::Arc;
 fn msg_pool() -> Vec<(String, Vec<u8>)> {
     let res = |m: &str| Res::new(0, "", m);
     let mut v: Vec<(String, Msg)> = vec![
-        ("min7".into(), Msg { id: 1, op: Op::DelResp(Res::new(0, "", "")), controls: None }),
+        ("min14".into(), Msg { id: 1, op: Op::DelResp(Res::new(0, "", "")), controls: None }),
         ("bind14".into(), Msg { id: 2, op: Op::BindResp(Res::new(49, "", "x"), None), controls: None }),
         (
             "entry".into(),
@@ -27,6 +27,10 @@ fn msg_pool() -> Vec<(String, Vec<u8>)> {
         ("text130".into(), Msg { id: 4, op: Op::ModifyResp(res(&"t".repeat(130))), controls: None }),
         ("text300".into(), Msg { id: 70000, op: Op::ExtResp(res(&"u".repeat(300)), Some(b"1.2".to_vec()), Some(vec![0; 5])), controls: None }),
         ("ref".into(), Msg { id: 5, op: Op::SearchRef(vec![b"ldap://x".to_vec()]), controls: None }),
+        // the shortest messages there are: an IntermediateResponse without name and value (7 octets),
+        // an entry with an empty DN and no attributes (11 octets)
+        ("interm7".into(), Msg { id: 7, op: Op::Intermediate { name: None, val: None }, controls: None }),
+        ("entry11".into(), Msg { id: 8, op: Op::SearchEntry { dn: vec![], attrs: vec![] }, controls: None }),
         // unsolicited notification (message ID 0)
         ("notice0".into(), Msg { id: 0, op: Op::ExtResp(Res::new(52, "", "bye"), Some(b"1.3.6.1.4.1.1466.20036".to_vec()), None), controls: None }),
     ];
@@ -272,7 +276,7 @@ pub fn run(tier: Tier) -> i32 {
         ("traces_validated_against_impl", json!(t.transitions + lane_a)),
         ("evaluations", json!(lane_a + t.transitions)),
         ("distinct_nontrivial", json!(lane_a)),
-        ("rule", json!("lane a: message sequences (1-3 messages from a pool: minimal 7-byte, 14-byte, entry, with controls, 130-byte, 300-byte, reference, non-minimal length forms, 9000-byte) fed to one real codec instance per stream: whole, byte-at-a-time, every partition for streams up to the stated length, every partition into <= 3 chunks, cuts around every message boundary and the 8 KiB read-buffer boundary; each (sequence, partition) is distinct. lane b: explicit-state search over byte-level delivery (Net(1)/Net(frame)/Net(all)) through the real Framed and driver")),
+        ("rule", json!("lane a: message sequences (1-3 messages from a pool: 7-byte intermediate response, 11-byte entry, 14-byte results, entry, with controls, 130-byte, 300-byte, reference, non-minimal length forms, 9000-byte) fed to one real codec instance per stream: whole, byte-at-a-time, every partition for streams up to the stated length, every partition into <= 3 chunks, cuts around every message boundary and the 8 KiB read-buffer boundary; each (sequence, partition) is distinct. lane b: explicit-state search over byte-level delivery (Net(1)/Net(frame)/Net(all)) through the real Framed and driver")),
         ("sequences", json!(nseq + bigs.len())),
         ("full_partition_enumerations", json!(all_partitions.load(Ordering::Relaxed))),
         ("full_partition_max_stream_len", json!(max_full)),
